@@ -103,9 +103,23 @@ func (r *dataErrReader) Read(p []byte) (int, error) {
 	return n, nil
 }
 
-const numReaderModes = 6
+// stutterReader returns (0, nil) on every third call (allowed, if discouraged, by io.Reader)
+type stutterReader struct {
+	chunkReader
+	calls int
+}
 
-var readerModeNames = [numReaderModes]string{"plain", "bufio16", "onebyte", "chunks", "dataerr", "bufio64k"}
+func (r *stutterReader) Read(p []byte) (int, error) {
+	r.calls++
+	if r.calls%3 == 0 {
+		return 0, nil
+	}
+	return r.chunkReader.Read(p)
+}
+
+const numReaderModes = 7
+
+var readerModeNames = [numReaderModes]string{"plain", "bufio16", "onebyte", "chunks", "dataerr", "bufio64k", "stutter"}
 
 func makeReader(mode int, seed uint64, s []byte) io.Reader {
 	switch mode {
@@ -123,6 +137,8 @@ func makeReader(mode int, seed uint64, s []byte) io.Reader {
 		return &dataErrReader{s: s}
 	case 5:
 		return bufio.NewReaderSize(bytes.NewReader(s), 1<<16)
+	case 6:
+		return &stutterReader{chunkReader: chunkReader{s: s, state: seed, max: 4500}}
 	}
 	return bytes.NewReader(s)
 }
@@ -130,16 +146,19 @@ func makeReader(mode int, seed uint64, s []byte) io.Reader {
 // ---- child main --------------------------------------------------------------------------
 
 type framer struct {
-	c       *vf.Ctx
-	r       *rec
-	limit   uint32
-	pend    string
-	replay  bool
-	cache   struct{ key string; s []byte }
-	arena   []byte
-	sbuf    bytes.Buffer
-	sinceGC uint64
-	hugeBad int // circuit breaker for the huge class
+	c      *vf.Ctx
+	r      *rec
+	limit  uint32
+	pend   string
+	replay bool
+	cache  struct {
+		key string
+		s   []byte
+	}
+	arena             []byte
+	sbuf              bytes.Buffer
+	sinceGC           uint64
+	hugeBad           int // circuit breaker: reads that allocated > 1 GiB
 	maxHonest, maxAny uint64
 }
 
@@ -357,8 +376,10 @@ func (f *framer) runCase(sc *streamCase) {
 		}
 	}
 	if risky {
-		if sc.Class == "huge" && f.hugeBad >= 3 && !f.replay {
-			f.r.Count("framing/huge_skipped_after_circuit_breaker", 1)
+		if f.hugeBad >= 3 && !f.replay {
+			// circuit breaker: three reads already allocated > 1 GiB each (reported); running hundreds more
+			// of them would only exhaust the machine
+			f.r.Count("framing/oversize_cases_skipped_after_circuit_breaker", 1)
 			return
 		}
 		b, _ := json.Marshal(sc)
@@ -449,6 +470,9 @@ func (f *framer) runCase(sc *streamCase) {
 	f.r.Count("framing/cases/"+sc.Class, 1)
 	f.r.Count("framing/reader/"+readerModeNames[sc.Reader%numReaderModes], 1)
 	f.r.Nontriv(caseKey(sc))
+	if sc.Class == "huge" && sc.Reader == 3 || sc.Class == "sequence" && len(sc.Frames) == 3 {
+		f.r.Sample(map[string]interface{}{"framing_case": sc, "calls": len(res), "oracle_last": exp[len(res)-1].String()})
+	}
 	f.sinceGC += 4096
 	for _, cr := range res {
 		f.sinceGC += cr.delta
@@ -531,7 +555,7 @@ func (f *framer) generate() {
 		for _, sz := range bigSizes {
 			n++
 			sc := &streamCase{Class: "roundtrip", Note: fmt.Sprintf("sub=%#x size=limit%+d", id, sz-L), Frames: []frameSpec{f.frame(r, id, sz)}, Trunc: -1,
-				Reader: []int{0, 3, 5}[n%3], RSeed: r.Uint64(), ViaReal: true}
+				Reader: []int{0, 3, 5, 4, 6}[n%5], RSeed: r.Uint64(), ViaReal: true}
 			f.runCase(sc)
 			// the same frame from the independent encoder (at limit+1 the real writer refuses, the reader must too)
 			sc2 := *sc
@@ -541,7 +565,7 @@ func (f *framer) generate() {
 	}
 
 	// B. sequences of frames, real writer and independent encoder alternating
-	for i := 0; i < c.Pick(400, 4000); i++ {
+	for i := 0; i < c.Pick(2000, 20000); i++ {
 		k := 1 + r.Intn(6)
 		var fr []frameSpec
 		for j := 0; j < k; j++ {
@@ -571,7 +595,7 @@ func (f *framer) generate() {
 			total += hdrLen + sz
 		}
 		for off := 0; off <= total; off++ {
-			for mode := 0; mode < 5; mode++ {
+			for mode := 0; mode < numReaderModes; mode++ {
 				t := off
 				if off == total {
 					t = -1
@@ -603,8 +627,31 @@ func (f *framer) generate() {
 		}
 	}
 
+	// F. headers announcing far more than the limit (2^32-1, negative-as-uint32, limit+1 ...)
+	huge := []uint32{uint32(L) + 1, uint32(L) + 2, uint32(L) + allocSlack, uint32(L) + allocSlack + 4096, uint32(L) * 2, 16 << 20, 64 << 20, 1 << 30, 1<<31 - 1, 1 << 31, 1<<31 + 1,
+		0x80000010, 0xc0000000, 0xffffff00, 0xfffffffe, 0xffffffff}
+	for i := 0; i < c.Pick(4, 40); i++ {
+		huge = append(huge, uint32(L)+1+uint32(r.Int63n(int64(0xffffffff-L))))
+	}
+	n = 0
+	for _, hl := range huge {
+		for _, present := range []int{0, 1, 1000, 70000} {
+			for _, lead := range []bool{false, true} {
+				n++
+				fs := f.frame(r, ids[n%len(ids)], present)
+				fs.Len = hl
+				fr := []frameSpec{fs}
+				if lead {
+					fr = []frameSpec{f.frame(r, named[n%len(named)], n%37), fs}
+				}
+				sc := &streamCase{Class: "huge", Note: fmt.Sprintf("announced=%d present=%d lead=%v", hl, present, lead), Frames: fr, Trunc: -1, Reader: []int{0, 1, 3, 5}[n%4], RSeed: r.Uint64()}
+				f.runCase(sc)
+			}
+		}
+	}
+
 	// E. random byte streams
-	for i := 0; i < c.Pick(5000, 60000); i++ {
+	for i := 0; i < c.Pick(20000, 300000); i++ {
 		var raw []byte
 		kind := i % 4
 		if kind == 2 && i%40 != 2 {
@@ -636,29 +683,6 @@ func (f *framer) generate() {
 		}
 		sc := &streamCase{Class: "random", Note: fmt.Sprintf("kind%d #%d", kind, i), Raw: hex.EncodeToString(raw), Trunc: -1, Reader: r.Intn(numReaderModes), RSeed: r.Uint64()}
 		f.runCase(sc)
-	}
-
-	// F. headers announcing far more than the limit (2^32-1, negative-as-uint32, limit+1 ...)
-	huge := []uint32{uint32(L) + 1, uint32(L) + 2, uint32(L) + allocSlack, uint32(L) + allocSlack + 4096, uint32(L) * 2, 16 << 20, 64 << 20, 1 << 30, 1<<31 - 1, 1 << 31, 1<<31 + 1,
-		0x80000010, 0xc0000000, 0xffffff00, 0xfffffffe, 0xffffffff}
-	for i := 0; i < c.Pick(4, 40); i++ {
-		huge = append(huge, uint32(L)+1+uint32(r.Int63n(int64(0xffffffff-L))))
-	}
-	n = 0
-	for _, hl := range huge {
-		for _, present := range []int{0, 1, 1000, 70000} {
-			for _, lead := range []bool{false, true} {
-				n++
-				fs := f.frame(r, ids[n%len(ids)], present)
-				fs.Len = hl
-				fr := []frameSpec{fs}
-				if lead {
-					fr = []frameSpec{f.frame(r, named[n%len(named)], n % 37), fs}
-				}
-				sc := &streamCase{Class: "huge", Note: fmt.Sprintf("announced=%d present=%d lead=%v", hl, present, lead), Frames: fr, Trunc: -1, Reader: []int{0, 1, 3, 5}[n%4], RSeed: r.Uint64()}
-				f.runCase(sc)
-			}
-		}
 	}
 
 	// G. writer side, observed only: message whose Length() disagrees with its payload
